@@ -1319,6 +1319,10 @@ def evaluate__unparsed_text_available(self: XPathFunction, context: ta.ContextTy
     except LookupError:
         return False
 
+    if context is not None and uri in context.text_resources:
+        # the same resource that fn:unparsed-text would return
+        return all(is_xml_codepoint(ord(s)) for s in context.text_resources[uri])
+
     try:
         with urlopen(uri) as rp:
             stream_reader = codecs.getreader(encoding)(rp)
